@@ -249,6 +249,10 @@ def instances(tier):
     for bits in ([1, 0, 1, 1, 1, 0], [1, 1, 0, 0, 1, 0]):  # dyadic row sums: the concrete float division in the code is exact
         out.append(psd_instance((), 2, 3, 2, 'src', variant='concrete', mask_values=bits, dtype_mask=bool))
     out.append(psd_instance((), 2, 3, 1, 'nosrc', variant='concrete', mask_values=[1, 0, 1], dtype_mask=bool))
+    # boolean masks without any active frame (a source that is never active): a finite, zero matrix
+    out.append(psd_instance((), 2, 3, 1, 'nosrc', variant='concrete', mask_values=[0, 0, 0], dtype_mask=bool))
+    out.append(psd_instance((), 2, 2, 2, 'src', variant='concrete', mask_values=[0, 0, 1, 1], dtype_mask=bool))
+    out.append(psd_instance((2,), 2, 2, 1, 'nosrc', variant='concrete', mask_values=[0, 0, 1, 0], dtype_mask=bool))
     # condition_covariance
     for lead in [(), (2,)]:
         for D in (1, 2, 3):
